@@ -153,12 +153,32 @@ class SymInterp:
                 fi = self.src.funcs.get((rel, st.name))
                 if fi is not None:
                     sc[st.name] = (lambda fi: (lambda *a, **k: self.call_function(fi, list(a), k)))(fi)
+            elif isinstance(st, ast.ImportFrom) and self._repo_module(rel, st) is not None:
+                # top-level functions imported from another module of the repository are that module's source functions (a stand-in of the run of the same name wins)
+                other = self._repo_module(rel, st)
+                for al in st.names:
+                    fi = self.src.funcs.get((other, al.name))
+                    if fi is not None and fi.parent is None and fi.cls is None:
+                        sc.setdefault(al.asname or al.name, (lambda fi: (lambda *a, **k: self.call_function(fi, list(a), k)))(fi))
             elif isinstance(st, ast.ImportFrom) and st.module in _PURE_MODULES and st.level == 0:
                 # names imported from a pure standard-library module are themselves (defaultdict, OrderedDict, product, reduce, ...)
                 for al in st.names:
                     if hasattr(_PURE_MODULES[st.module], al.name):
                         sc.setdefault(al.asname or al.name, getattr(_PURE_MODULES[st.module], al.name))
         return sc
+
+    def _repo_module(self, rel, st):
+        """path of the repository module an `from X import ...` statement of module rel names, or None"""
+        if st.level == 0:
+            parts = (st.module or "").split(".")
+        else:
+            base = rel.split("/")[:-1]
+            base = base[:len(base) - (st.level - 1)] if st.level > 1 else base
+            parts = base + ((st.module or "").split(".") if st.module else [])
+        for cand in ("/".join(parts) + ".py", "/".join(parts) + "/__init__.py"):
+            if cand in self.src.modules:
+                return cand
+        return None
 
     def new_env(self, fi, /, **names):
         """environment for interpreting statements of fi one by one: module-level names of fi's module (helpers, constants) behind the given local names"""
